@@ -560,6 +560,11 @@ def _roles(chk):
           "transform data with other dimensions than the fitted data is no longer refused")
     _role(chk, "feature_coords", M(st, "_validate_transform_feature_coords"), lambda g, ff: "coords_are_equal" in norm(g.test) or "equals" in norm(g.test),
           "transform data with other feature coordinates is no longer refused")
+    from .common import ordered_label_comparison
+    ordered_label_comparison(chk, "GUARD.role.feature_coords.ordered", M(st, "_validate_transform_feature_coords"), ("coords_in",),
+                             "transform data whose feature coordinates hold the fitted labels in another order are no longer refused, and the matrix columns are matched by position")
+    ordered_label_comparison(chk, "GUARD.role.feature_coords.ordered", pm.own_method("xeofs.preprocessing.sanitizer.Sanitizer", "_check_input_coords"), ("feature_coords",),
+                             "2-D data whose feature coordinate holds the fitted labels in another order are no longer refused")
     from .common import holds as _holds
     _role(chk, "transform_type", M(st, "_validate_transform_data_type"),
           lambda g, ff: _holds(g.test, g.polarity, "NotEq", lambda e: "type" in norm(e).lower(), lambda e: "data_type" in norm(e)) or _holds(g.test, g.polarity, "NotEq", lambda e: "data_type" in norm(e), lambda e: "type" in norm(e).lower()),
